@@ -334,6 +334,35 @@ class Loader(yaml.SafeLoader):
         self.yaml_implicit_resolvers = new_implicit_resolvers
 
 
+def _checked_scalar_constructor(tag: str) -> Callable[[Any, yaml.Node], Any]:
+    """Wraps PyYAML's constructor for a built-in scalar type.
+
+    PyYAML's scalar constructors raise ValueError, KeyError or
+    AttributeError if the text of the scalar is not valid for its tag,
+    e.g. for ``!!int abc`` or ``2001-13-45``. This returns a constructor
+    that reports that as a RecognitionError.
+
+    Args:
+        tag: The YAML tag to make a constructor for.
+    """
+    constructor = yaml.SafeLoader.yaml_constructors[tag]
+
+    def construct(loader: Any, node: yaml.Node) -> Any:
+        try:
+            return constructor(loader, node)
+        except (ValueError, KeyError, AttributeError) as e:
+            raise RecognitionError('{}\nInvalid value: {}'.format(
+                node.start_mark, e))
+
+    return construct
+
+
+for _type in ('int', 'float', 'bool', 'timestamp'):
+    Loader.add_constructor(
+            'tag:yaml.org,2002:{}'.format(_type),
+            _checked_scalar_constructor('tag:yaml.org,2002:{}'.format(_type)))
+
+
 def set_document_type(loader_cls: Type, type_: Type) -> None:
     """Set the type corresponding to the whole document.
 
